@@ -181,3 +181,45 @@ package introspection
 //@   loop 1: step len(typeNames) == prev(len(typeNames)) + 1
 //@   at! `append(typeNames, typ.Name)` requires arg1 == typ.Name
 //@   at! `WrapTypeFromDef(s.schema, typ)` requires arg0 == s.schema && arg1 == typ
+
+// ---------------------------------------------------------------- C16: descriptions mirror the schema exactly
+// The construction sites above copy each element's description verbatim into the unexported field; the accessors
+// that the generated __Type/__Field/... resolvers call hand out exactly that text - every character of it, outer
+// whitespace included - and null only for the empty description.
+//@ func (*EnumValue).Description [C16]
+//@   requires f != nil
+//@   nopanic
+//@   modifies nothing
+//@   ensures f.description == "" ==> res0 == nil
+//@   ensures f.description != "" ==> res0 != nil && deref(res0) == f.description
+//@ func (*Field).Description [C16]
+//@   requires f != nil
+//@   nopanic
+//@   modifies nothing
+//@   ensures f.description == "" ==> res0 == nil
+//@   ensures f.description != "" ==> res0 != nil && deref(res0) == f.description
+//@ func (*InputValue).Description [C16]
+//@   requires f != nil
+//@   nopanic
+//@   modifies nothing
+//@   ensures f.description == "" ==> res0 == nil
+//@   ensures f.description != "" ==> res0 != nil && deref(res0) == f.description
+//@ func (*Directive).Description [C16]
+//@   requires f != nil
+//@   nopanic
+//@   modifies nothing
+//@   ensures f.description == "" ==> res0 == nil
+//@   ensures f.description != "" ==> res0 != nil && deref(res0) == f.description
+//@ func (*Schema).Description [C16]
+//@   requires s != nil && s.schema != nil
+//@   nopanic
+//@   modifies nothing
+//@   ensures s.schema.Description == "" ==> res0 == nil
+//@   ensures s.schema.Description != "" ==> res0 != nil && deref(res0) == s.schema.Description
+//@ func (*Type).Description [C16]
+//@   requires t != nil
+//@   nopanic
+//@   modifies nothing
+//@   ensures t.def == nil ==> res0 == nil
+//@   ensures t.def != nil && t.def.Description == "" ==> res0 == nil
+//@   ensures t.def != nil && t.def.Description != "" ==> res0 != nil && deref(res0) == t.def.Description
